@@ -376,7 +376,6 @@ fn get_with_token(node: &Node, path_q: &str, token: &str) -> Result<Resp, String
     node.sdk(&Req { method: "GET".into(), target: path_q.into(), headers: vec![("accessToken".into(), token.into())], body: vec![] })
 }
 
-/// O3: the data named by the unauthenticated request is unchanged
 pub type FamilyPub = Family;
 
 pub fn confirm_unchanged_pub(env: &Env, on_b: bool, fam: Family, cfg: &str, svc: &str, fixture: bool) -> Result<Option<String>, String> {
@@ -384,12 +383,29 @@ pub fn confirm_unchanged_pub(env: &Env, on_b: bool, fam: Family, cfg: &str, svc:
     confirm_unchanged(env, on_b, fam, &keys, fixture)
 }
 
-fn confirm_unchanged(env: &Env, on_b: bool, fam: Family, keys: &Keys, fixture: bool) -> Result<Option<String>, String> {
+/// authorised read for O3; node B's short-lived token may expire in flight on a loaded machine: retried
+fn read_authorised(env: &Env, on_b: bool, path_q: &str) -> Result<Resp, String> {
     let node = if on_b { &env.b } else { &env.a };
-    let tok = env.valid_for(on_b)?;
+    for _ in 0..4 {
+        let tok = env.valid_for(on_b)?;
+        let r = get_with_token(node, path_q, &tok)?;
+        if is_auth_refusal(&r, "GET") {
+            if on_b {
+                *env.b_token.lock().unwrap() = None;
+                continue;
+            }
+            return Err(format!("the valid token was refused on the confirmation read {}: {}", path_q, r.short()));
+        }
+        return Ok(r);
+    }
+    Err(format!("confirmation read {} was refused 4 times with freshly issued tokens", path_q))
+}
+
+/// O3: the data named by the unauthenticated request is unchanged
+fn confirm_unchanged(env: &Env, on_b: bool, fam: Family, keys: &Keys, fixture: bool) -> Result<Option<String>, String> {
     match fam {
         Family::Config => {
-            let r = get_with_token(node, &format!("/nacos/v1/cs/configs?dataId={}&group={}", keys.cfg, GROUP), &tok)?;
+            let r = read_authorised(env, on_b, &format!("/nacos/v1/cs/configs?dataId={}&group={}", keys.cfg, GROUP))?;
             if fixture {
                 if !(r.status == 200 && r.body_str() == FIX_CONTENT) {
                     return Ok(Some(format!("fixture config {}/{} is no longer {:?}: {}", FIX_CFG, GROUP, FIX_CONTENT, r.short())));
@@ -399,7 +415,7 @@ fn confirm_unchanged(env: &Env, on_b: bool, fam: Family, keys: &Keys, fixture: b
             }
         }
         Family::Naming => {
-            let r = get_with_token(node, &format!("/nacos/v1/ns/instance/list?serviceName={}&groupName=DEFAULT_GROUP&healthyOnly=false", keys.svc), &tok)?;
+            let r = read_authorised(env, on_b, &format!("/nacos/v1/ns/instance/list?serviceName={}&groupName=DEFAULT_GROUP&healthyOnly=false", keys.svc))?;
             let has = r.body_str().contains(FIX_IP);
             if fixture && !(r.status == 200 && has) {
                 return Ok(Some(format!("fixture instance of {} disappeared: {}", FIX_SVC, r.short())));
@@ -409,7 +425,7 @@ fn confirm_unchanged(env: &Env, on_b: bool, fam: Family, keys: &Keys, fixture: b
             }
         }
         Family::Namespace => {
-            let r = get_with_token(node, "/nacos/v1/console/namespaces", &tok)?;
+            let r = read_authorised(env, on_b, "/nacos/v1/console/namespaces")?;
             let has = r.body_str().contains(&format!("\"{}\"", keys.ns));
             if fixture && !(r.status == 200 && has) {
                 return Ok(Some(format!("fixture namespace {} disappeared: {}", FIX_NS, r.short())));
@@ -519,6 +535,10 @@ pub fn run_http(env: &Env, case: &HttpCase, strict: bool) -> CaseReport {
             return CaseReport { labels: labels.into_iter().collect(), nontrivial: false, verdict: Verdict::Discard(format!("{}: {}", req.line(), e)) };
         }
     };
+    if resp.status == 0 {
+        // no response head within the read timeout: overloaded machine, nothing can be judged
+        return CaseReport { labels: labels.into_iter().collect(), nontrivial: false, verdict: Verdict::Discard(format!("{}: no response within 10 s", req.line())) };
+    }
     if t_req.elapsed() > Duration::from_millis(800) {
         labels.insert("slow_response".into());
         if std::env::var("RNV_DEBUG").is_ok() {
@@ -570,6 +590,9 @@ pub fn run_http(env: &Env, case: &HttpCase, strict: bool) -> CaseReport {
             let tkeys = Keys::fresh("a", n);
             let treq = build_req(method, &raw, fam, &tkeys, &[(Carrier::Header, env.valid.clone())], false);
             match env.a.sdk(&treq) {
+                Ok(t) if t.status == 0 => {
+                    return CaseReport { labels: labels.into_iter().collect(), nontrivial: false, verdict: Verdict::Discard(format!("twin {}: no response within 10 s", treq.line())) };
+                }
                 Ok(t) => {
                     if is_auth_refusal(&t, method) {
                         return done(labels, false, Some(format!("O2: the authorised twin was refused: {} -> {}", treq.line(), t.short())));
@@ -624,9 +647,12 @@ pub fn run_case(env: &Env, case: &Case) -> CaseReport {
 
 // ------------------------------------------------------------------------------------------------
 
-fn setup_fixture(node: &Node, token: &str) -> Result<(), String> {
-    let hdr = vec![("accessToken".to_string(), token.to_string()), ("Content-Type".to_string(), "application/x-www-form-urlencoded".to_string())];
-    let post = |target: &str, body: String| -> Result<Resp, String> { node.sdk(&Req { method: "POST".into(), target: target.into(), headers: hdr.clone(), body: body.into_bytes() }) };
+/// `token()` yields a token that is valid right now (node B's tokens live 2 s only)
+fn setup_fixture(node: &Node, token: &dyn Fn() -> Result<String, String>) -> Result<(), String> {
+    let post = |target: &str, body: String| -> Result<Resp, String> {
+        let hdr = vec![("accessToken".to_string(), token()?), ("Content-Type".to_string(), "application/x-www-form-urlencoded".to_string())];
+        node.sdk(&Req { method: "POST".into(), target: target.into(), headers: hdr, body: body.into_bytes() })
+    };
     let r = post("/nacos/v1/cs/configs", rawhttp::form(&[("dataId", FIX_CFG), ("group", GROUP), ("content", FIX_CONTENT)]))?;
     if r.status != 200 {
         return Err(format!("fixture config: {}", r.short()));
@@ -645,9 +671,9 @@ fn setup_fixture(node: &Node, token: &str) -> Result<(), String> {
     // the fixture must be visible through the reads O3 uses
     let deadline = Instant::now() + Duration::from_secs(10);
     loop {
-        let c = get_with_token(node, &format!("/nacos/v1/cs/configs?dataId={}&group={}", FIX_CFG, GROUP), token)?;
-        let i = get_with_token(node, &format!("/nacos/v1/ns/instance/list?serviceName={}&groupName=DEFAULT_GROUP&healthyOnly=false", FIX_SVC), token)?;
-        let n = get_with_token(node, "/nacos/v1/console/namespaces", token)?;
+        let c = get_with_token(node, &format!("/nacos/v1/cs/configs?dataId={}&group={}", FIX_CFG, GROUP), &token()?)?;
+        let i = get_with_token(node, &format!("/nacos/v1/ns/instance/list?serviceName={}&groupName=DEFAULT_GROUP&healthyOnly=false", FIX_SVC), &token()?)?;
+        let n = get_with_token(node, "/nacos/v1/console/namespaces", &token()?)?;
         if c.status == 200 && c.body_str() == FIX_CONTENT && i.body_str().contains(FIX_IP) && n.body_str().contains(&format!("\"{}\"", FIX_NS)) {
             return Ok(());
         }
@@ -690,17 +716,23 @@ pub fn build_env(ctx: &Ctx) -> Result<Env, String> {
     let b = nodes.pop().ok_or("node-b missing")?;
     let a = nodes.pop().ok_or("node-a missing")?;
     // expired token: issued by a successful login on B (TTL B_TTL_S); used only after >= TTL + 3 s
-    let btok = b.api_login(ADMIN_USER, admin_pass()).map_err(|e| format!("login on B: {}", e))?;
-    setup_fixture(&b, &btok)
-        .or_else(|_| {
-            let t = b.api_login(ADMIN_USER, admin_pass())?;
-            setup_fixture(&b, &t)
-        })
-        .map_err(|e| format!("fixture on B: {}", e))?;
+    let b_cache: std::cell::RefCell<Option<(String, Instant)>> = std::cell::RefCell::new(None);
+    let b_token = || -> Result<String, String> {
+        if let Some((t, at)) = b_cache.borrow().as_ref() {
+            if at.elapsed() < Duration::from_millis(600) {
+                return Ok(t.clone());
+            }
+        }
+        let at = Instant::now();
+        let t = b.api_login(ADMIN_USER, admin_pass()).map_err(|e| format!("login on B: {}", e))?;
+        *b_cache.borrow_mut() = Some((t.clone(), at));
+        Ok(t)
+    };
+    setup_fixture(&b, &b_token).map_err(|e| format!("fixture on B: {}", e))?;
     let expired = b.api_login(ADMIN_USER, admin_pass()).map_err(|e| format!("login 2 on B: {}", e))?;
     let issued = Instant::now();
     let valid = a.api_login(ADMIN_USER, admin_pass()).map_err(|e| format!("login on A: {}", e))?;
-    setup_fixture(&a, &valid).map_err(|e| format!("fixture on A: {}", e))?;
+    setup_fixture(&a, &|| Ok(valid.clone())).map_err(|e| format!("fixture on A: {}", e))?;
     // the token must have worked before it expired (otherwise "expired" would be "never valid")
     let wait = Duration::from_secs(B_TTL_S as u64 + 3).saturating_sub(issued.elapsed());
     std::thread::sleep(wait);
